@@ -349,8 +349,13 @@ RunPoll(s) ==
 \* L0 characters whose fail_at-th growth step cannot allocate
 ENOMEM == -12
 IsStr(sk) == Len(sk) = 4
+\* <<0, 0, "nest", g, 0>>: a recording sink that, when it gets its first data, first drains handle g (whose child has ended, so
+\* that this cannot block) on the same thread with sinks of its own, and only then looks at the buffer it was given:
+\* the library is re-entered from a sink; the outer call must be unaffected (its chunk intact, its bookkeeping its own)
+IsNest(sk) == Len(sk) = 5
+CanDrainNow(s, g) == g # 0 /\ s.life[g] \in {"run", "exited"} /\ s.ch[g].alive # "run" /\ s.ch[g].fd = <<"x", "x", "x">>
 IsDiscard(sk) == Len(sk) = 3      \* <<0, 0, "discard">> / <<0, 0, "null">>: the library's own discarding sinks (nothing to observe but the result)
-SinkArg(sk) == IF IsStr(sk) THEN <<"str", sk[4], sk[1]>> ELSE IF IsDiscard(sk) THEN <<sk[3]>> ELSE <<"rec", sk[1], sk[2]>>
+SinkArg(sk) == IF IsStr(sk) THEN <<"str", sk[4], sk[1]>> ELSE IF IsDiscard(sk) THEN <<sk[3]>> ELSE IF IsNest(sk) THEN <<"nest", sk[4]>> ELSE <<"rec", sk[1], sk[2]>>
 SinkArgs(sinks) == <<SinkArg(sinks[1]), SinkArg(sinks[2])>>
 SinkRet(s, k) ==   \* the value sink k returns for the call it is about to receive
   LET calls == IF k = 1 THEN s.fr.x.c1 ELSE s.fr.x.c2
@@ -361,6 +366,7 @@ SinkCall(s, k, nbytes, closing) ==   \* (s1, s2: bytes the sink accepted, i.e. p
   IF k = 1 THEN [s EXCEPT !.fr.x.c1 = @ + 1, !.fr.x.b1 = @ + nbytes, !.fr.x.z1 = @ + closing, !.fr.x.s1 = @ + okb]
   ELSE [s EXCEPT !.fr.x.c2 = @ + 1, !.fr.x.b2 = @ + nbytes, !.fr.x.z2 = @ + closing, !.fr.x.s2 = @ + okb]
 
+NoAcc == [c1 |-> 0, c2 |-> 0, b1 |-> 0, b2 |-> 0, z1 |-> 0, z2 |-> 0, s1 |-> 0, s2 |-> 0, nest |-> <<>>]
 RECURSIVE RunDrain(_)
 RunDrain(s) ==
   LET h == s.fr.h
@@ -376,7 +382,14 @@ RunDrain(s) ==
         IF b # <<>>
           THEN LET rv == SinkRet(s, k)
                    nb_ == Min(BLen(b), DrainChunk)     \* drain reads with a buffer of DrainChunk bytes
-                   s1 == SinkCall([Deliverk(s, h, st, nb_) EXCEPT !.fr.r = 0, !.fr.x = s.fr.x], k, nb_, 0)
+                   s0 == SinkCall([Deliverk(s, h, st, nb_) EXCEPT !.fr.r = 0, !.fr.x = s.fr.x], k, nb_, 0)
+                   sp == s.fr.a[k]
+                   \* the sink re-enters the library: a complete drain of handle sp[4], then the outer call goes on
+                   inner == RunDrain([s0 EXCEPT !.fr = [NoFrame EXCEPT !.fn = "drain", !.h = sp[4], !.pc = "init", !.a = <<<<0, 0>>, <<0, 0>>>>,
+                                                                          !.t0 = now, !.x = NoAcc]])
+                   s1 == IF IsNest(sp) /\ s.fr.x.nest = <<>> /\ CanDrainNow(s0, sp[4])
+                           THEN [inner EXCEPT !.fr = [s0.fr EXCEPT !.x.nest = <<inner.fr.r, inner.fr.x.b1, inner.fr.x.b2>>]]
+                           ELSE s0
                IN IF rv # 0 THEN EndDrain(s1, rv) ELSE RunDrain(s1)
           ELSE LET rv == SinkRet(s, k)
                    s1 == SinkCall(ClosePend(s, h, st), k, 0, 1)
@@ -460,6 +473,7 @@ RetRec(s) ==
        [] f.fn \in {"drain", "run", "run0"} /\ DOMAIN f.x # {} /\ (IsDiscard(f.a[1]) \/ IsDiscard(f.a[2])) -> base @@ [r |-> f.r]
        [] f.fn \in {"drain", "run"} /\ DOMAIN f.x # {} ->
             base @@ [r |-> f.r, dsum |-> DrainSummary(f), bad |-> 0]
+                 @@ (IF f.x.nest # <<>> THEN [nest |-> f.x.nest] ELSE <<>>)
                  @@ (IF IsStr(f.a[1]) THEN [str1 |-> <<f.a[1][4] + f.x.s1, f.a[1][4], 1>>] ELSE <<>>)
                  @@ (IF IsStr(f.a[2]) THEN [str2 |-> <<f.a[2][4] + f.x.s2, f.a[2][4], 1>>] ELSE <<>>)
        [] f.fn = "start" /\ f.r < 0 /\ ~StrictFailedStart -> [e |-> "ret", t |-> now, mon |-> <<>>, r |-> f.r]
@@ -603,7 +617,6 @@ Poll(srcs, to) ==
   IF Len(srcs) = 0 THEN Immediate("poll", 0, args, EINVAL)
   ELSE Begin("poll", 0, args, Frame("poll", 0, "look", <<srcs, to>>))
 
-NoAcc == [c1 |-> 0, c2 |-> 0, b1 |-> 0, b2 |-> 0, z1 |-> 0, z2 |-> 0, s1 |-> 0, s2 |-> 0]
 
 
 \* sinks = <<<<fail_at, fail_val>>, <<fail_at, fail_val>>>>; nofn = 1: pass a sink without a function
